@@ -4,7 +4,9 @@ Workload: LinearModel instances built from dense/sparse matrices and from record
 (forward, adjoint) function pairs over every pairing of domain/range geometry
 (default, Continuous1D/2D, Discrete, Image2D C/F/visual-only, mapped (orthogonal, scaling,
 without inverse), KLExpansion full/truncated, StepExpansion n_steps = / < n_grid, CustomKL,
-KLExpansion_Full), their .T and .T.T (taken before and after the matrix was cached), and the
+KLExpansion_Full), function pairs that return views of their argument (identity, down-sampling, windowing,
+reversal, image transpose), their .T and .T.T (taken before and after the matrix was cached), parameter vectors
+arriving as plain ndarrays and wrapped as CUQIarray (own / equal / same-class-other-settings / default geometry), and the
 models of the shipped linear test problems (Deconvolution1D incl. legacy, Deconvolution2D,
 Abel1D, _Deconv_1D, _Deblur) under all their options.
 
@@ -16,6 +18,14 @@ Oracle: A_a == A_f^T, <A x,y> == <x,A* y>, G.shape == (range_dim, domain_dim) an
 (column by column), G x == forward(x), T.forward == adjoint, T.adjoint == forward,
 T.get_matrix() == G^T, T.T == model.  A documented exception is a refusal (accepted for
 geometries whose maps are not orthogonal/implemented; a violation for identity-like ones).
+For identity-like / reshaping geometries forward and adjoint are also compared with the user operator
+conjugated by the documented vector<->image reshaping (vlib/refs/c07_linops.py), Deconvolution1D's
+columns with scipy.ndimage.convolve1d of the unit vectors.
+
+Every mismatch carries a `form` attribute saying whether the wrong value is exactly what one of the
+known defects produces (adjoint = fun2par o M^T o par2fun composition, get_matrix = raw input matrix,
+T = geometry maps applied twice, Deconvolution2D adjoint = forward with the PSF rotated by 180 degrees);
+the known findings match only those forms, so any other wrong value in the same configuration is reported.
 """
 import numpy as np
 from vlib import core
@@ -33,10 +43,10 @@ ASSUMPTIONS = ["inner products are Euclidean in parameter space (what CGLS/Linea
 REQUIRED_COUNTERS = {
     "quick": {"adjoint_entries_compared": 150000, "inner_products_checked": 1300, "matrix_columns_compared": 7000,
               "transpose_applications_compared": 17000, "transpose_matrix_compared": 600, "proxy_call_windows_checked": 2500,
-              "conv1d_columns_compared": 800, "forward_vs_user_operator_compared": 900},
+              "conv1d_columns_compared": 800, "forward_vs_user_operator_compared": 900, "wrapped_inputs_compared": 1000},
     "thorough": {"adjoint_entries_compared": 1500000, "inner_products_checked": 4000, "matrix_columns_compared": 40000,
                  "transpose_applications_compared": 90000, "transpose_matrix_compared": 1800, "proxy_call_windows_checked": 7000,
-                 "conv1d_columns_compared": 5000, "forward_vs_user_operator_compared": 5000},
+                 "conv1d_columns_compared": 5000, "forward_vs_user_operator_compared": 5000, "wrapped_inputs_compared": 3000},
 }
 BUDGET_S = {"quick": 240.0, "thorough": 2400.0}
 
@@ -193,6 +203,17 @@ def cases(tier, seed):
                     k += 1
                     out.append({"kind": "func", "dom": _spec(r, dom, lo, hi, lo2, hi2), "ran": _spec(r, ran, lo, hi, lo2, hi2),
                                 "t_order": t_order, "op": r.choice(["dense", "dense", "symmetric_square", "sparse"]), "rep": rep})
+    # ---- function-backed models whose callables return views / aliases of their input (selection operators)
+    for view in ("identity", "downsample", "window", "reverse"):
+        for g in ("default", "cont1d", "cont1d_grid", "discrete", "step_eq", "image_visual"):
+            for t_order in ("before", "after"):
+                for rep in range(1 if quick else 3):
+                    out.append({"kind": "funcview", "view": view, "dom": _spec(r, g, max(lo, 5), hi, lo2, hi2), "t_order": t_order, "rep": rep})
+    for view in ("image_identity", "image_transpose"):
+        for g in G_2D:
+            for t_order in ("before", "after"):
+                for rep in range(1 if quick else 3):
+                    out.append({"kind": "funcview", "view": view, "dom": _spec(r, g, lo, hi, lo2, hi2), "t_order": t_order, "rep": rep})
     # ---- Deconvolution1D
     psfs = ["gauss", "moffat", "defocus", "custom_asym", "custom_sym"]
     rels = ["odd_lt", "even_lt", "eq_dim", "none", "gt_dim"]
@@ -234,7 +255,7 @@ def cases(tier, seed):
 def _cfg(case):
     """Discrete attributes of a case (never random values) - used to match known findings."""
     kind = case["kind"]
-    c = {"model": {"matrix": "LinearModel", "func": "LinearModel", "deconv1d": "Deconvolution1D", "deconv2d": "Deconvolution2D",
+    c = {"model": {"matrix": "LinearModel", "func": "LinearModel", "funcview": "LinearModel", "deconv1d": "Deconvolution1D", "deconv2d": "Deconvolution2D",
                    "abel": "Abel1D", "deconv_1d_old": "_Deconv_1D", "deblur_old": "_Deblur"}[kind]}
     if kind in ("matrix", "func"):
         c["backing"] = "matrix" if kind == "matrix" else "func"
@@ -245,6 +266,9 @@ def _cfg(case):
         c["t_order"] = case["t_order"]
         if case.get("flat"):
             c["flat"] = True
+    elif kind == "funcview":
+        c.update({"backing": "func", "view": case["view"], "dom": case["dom"]["g"], "ran": case["dom"]["g"],
+                  "dom_class": G_CLASS[case["dom"]["g"]], "ran_class": G_CLASS[case["dom"]["g"]], "t_order": case["t_order"]})
     elif kind == "deconv1d":
         c.update({"psf": case["psf"], "rel": case["rel"], "bc": case["bc"].lower(), "legacy": case["legacy"]})
     elif kind == "deconv2d":
@@ -349,11 +373,6 @@ class _Judge:
 
 class _FakeExc(Exception):
     pass
-
-def _exc_name(why):
-    # "column 0: ValueError: ..." -> ValueError
-    parts = why.split(": ")
-    return parts[1] if len(parts) > 1 else "Exception"
 
 def _refuse(ctx, what, obs):
     name = type(obs.exc).__name__ if obs.exc is not None else "Exception"
@@ -682,6 +701,81 @@ def _examine_transpose(model, T, ctx, cfg, rs, label, must_work, rec, res, n, m,
             if (consistent and len(ok) < len(cands)) or (not consistent and not ok):
                 tviol("T.T.get_matrix() differs from " + " and from ".join(nm for nm, _ in cands if nm not in ok), {"what": "T.T.get_matrix"})
 
+# ----------------------------------------------------------------------------- wrapped (CUQIarray) parameter vectors
+
+def _foreign_geom(spec):
+    """A geometry of the same class and parameter shape as `spec` but with other settings (None: no such variant)."""
+    import cuqi
+    G = cuqi.geometry
+    g = spec["g"]
+    if g in ("image_C", "default2d"):
+        return G.Image2D(tuple(spec["shape"]), order="F")
+    if g == "image_F":
+        return G.Image2D(tuple(spec["shape"]), order="C")
+    if g == "image_visual":
+        return G.Image2D((spec["shape"][0] * spec["shape"][1], 1), visual_only=False)
+    if g == "cont2d":
+        return G.Continuous2D((0.5 + 2.0 * np.arange(spec["shape"][0]), -1.0 + 0.25 * np.arange(spec["shape"][1])))
+    if g in ("default", "cont1d"):
+        return G.Continuous1D(3.0 + 0.5 * np.arange(spec["n"]))
+    if g == "cont1d_grid":
+        return G.Continuous1D(spec["x0"] + 7.0 + 2 * spec["h"] * np.arange(spec["n"]))
+    if g == "discrete":
+        return G.Discrete(["q%d" % i for i in range(spec["n"])])
+    if g == "discrete_names":
+        return G.Discrete(spec["n"])
+    if g == "step_eq":
+        return G.StepExpansion(spec["x0"] + 7.0 + 2 * spec["h"] * np.arange(spec["n"]), n_steps=spec["n"])
+    return None
+
+def wrapped_inputs(model, ctx, cfg, rs, res, dspec, rspec, label):
+    """forward / adjoint of a parameter vector must not depend on how the vector is wrapped: plain ndarray, CUQIarray carrying the
+    model's own geometry object, an equal geometry, a geometry of the same class with other settings, or the default geometry."""
+    import cuqi
+    CUQIarray = cuqi.array.CUQIarray
+    Af, Aa = res["Af"], res["Aa"]
+    if Af is None or Aa is None:
+        return
+    m, n = Af.shape
+    sc = _scale(Af, Aa)
+    J = _Judge(ctx, cfg, label)
+    def wraps(spec, own):
+        out = [("own", lambda v: CUQIarray(v, is_par=True, geometry=own)),
+               ("default", lambda v: CUQIarray(v, is_par=True))]
+        eq = _build_geom(spec)
+        if isinstance(eq, cuqi.geometry.Geometry):
+            out.append(("equal", lambda v: CUQIarray(v, is_par=True, geometry=eq)))
+        fg = _foreign_geom(spec)
+        if fg is not None:
+            out.append(("foreign", lambda v: CUQIarray(v, is_par=True, geometry=fg)))
+        return out
+    wx_all, wy_all = wraps(dspec, model.domain_geometry), wraps(rspec, model.range_geometry)
+    for wname, wx in wx_all:
+        x = rs.standard_normal(n)
+        k, v = _apply(model.forward, wx(x), m)
+        ctx.count("wrapped_inputs_compared")
+        if k != "value" or not J.same(v, Af @ x, sc * np.abs(x).sum()):
+            J.viol("wrapped_input_mismatch", f"forward(CUQIarray(x, geometry={wname})) differs from forward(x) for the same parameter vector "
+                   f"({k}{'' if k != 'value' else ', max diff %.3g' % _maxdiff(v, Af @ x)})", {"op": "forward", "wrap": wname})
+    for wname, wy in wy_all:
+        y = rs.standard_normal(m)
+        k, v = _apply(model.adjoint, wy(y), n)
+        ctx.count("wrapped_inputs_compared")
+        if k != "value" or not J.same(v, Aa @ y, sc * np.abs(y).sum()):
+            J.viol("wrapped_input_mismatch", f"adjoint(CUQIarray(y, geometry={wname})) differs from adjoint(y) for the same parameter vector "
+                   f"({k}{'' if k != 'value' else ', max diff %.3g' % _maxdiff(v, Aa @ y)})", {"op": "adjoint", "wrap": wname})
+    if res["adj_ok"]:
+        for (wnx, wx), (wny, wy) in zip(wx_all[::-1], wy_all):
+            x, y = rs.standard_normal(n), rs.standard_normal(m)
+            k1, Ax = _apply(model.forward, wx(x), m)
+            k2, Aty = _apply(model.adjoint, wy(y), n)
+            if k1 == "value" and k2 == "value":
+                ctx.count("inner_products_checked")
+                lhs, rhs = float(Ax @ y), float(x @ Aty)
+                if not abs(lhs - rhs) <= 1e-9 * np.linalg.norm(Af) * np.linalg.norm(x) * np.linalg.norm(y) + 1e-300:
+                    J.viol("adjoint_mismatch", f"<A x, y> = {lhs:.12g} but <x, A* y> = {rhs:.12g} with x wrapped as CUQIarray({wnx}) and y as CUQIarray({wny})",
+                           {"form": "wrapped_inputs"})
+
 # ----------------------------------------------------------------------------- recorded callables
 
 class _Recorder:
@@ -723,7 +817,7 @@ def run_case(case, ctx):
     rs = core.np_rng(ctx.seed, PROPERTY, core.canon(case))
     cfg = _cfg(case)
     MAX_REL_PASSED[0] = 0.0
-    fn = {"matrix": _run_matrix, "func": _run_func, "deconv1d": _run_deconv1d, "deconv2d": _run_deconv2d}.get(kind, _run_field_problem)
+    fn = {"matrix": _run_matrix, "func": _run_func, "funcview": _run_funcview, "deconv1d": _run_deconv1d, "deconv2d": _run_deconv2d}.get(kind, _run_field_problem)
     try:
         fn(case, ctx, cfg, rs)
     finally:
@@ -759,9 +853,11 @@ def _run_matrix(case, ctx, cfg, rs):
         return
     ctx.count("models_built")
     must = _must_work(cfg) and (not two_d)     # a matrix acting on image columns is the library's own convention: judged, but refusals are accepted
-    examine(built, ctx, cfg, rs, label="matrix-backed", must_work=must, t_order=case["t_order"],
+    r0 = examine(built, ctx, cfg, rs, label="matrix-backed", must_work=must, t_order=case["t_order"],
             expect_dims=(_par_dim(dspec), _par_dim(rspec)),
             doc=make_doc(built, lambda f: A @ f, lambda f: A.T @ f, raw=_dense(A)))
+    if must:
+        wrapped_inputs(built, ctx, cfg, rs, r0, dspec, rspec, "matrix-backed")
     # the matrix handed over must not have been modified
     ctx.count("input_matrix_unchanged_checked")
     if not np.array_equal(_dense(A), M):
@@ -824,9 +920,66 @@ def _run_func(case, ctx, cfg, rs):
                 ctx.violation("matrix_mismatch", {**cfg, "what": "stale_after_geometry_change"},
                               detail=f"after model.domain_geometry = Image2D(order={other!r}) forward(e_i) changed but get_matrix() still returns the matrix "
                                      f"cached under the previous geometry (max diff {_maxdiff(G2, F2.mat):.3g})")
+    if must:
+        # (uses a fresh model: the geometry of `model` may just have been re-assigned above)
+        fw, aw = _make_pair(M, dshape, rshape, _Recorder())
+        mw = cuqi.model.LinearModel(fw, aw, range_geometry=_build_geom(rspec), domain_geometry=_build_geom(dspec))
+        wrapped_inputs(mw, ctx, cfg, rs, r1, dspec, rspec, "function-backed")
     if rec.bad_inputs and must:
         ctx.violation("callable_input_shape", cfg, detail=f"user callables received inputs that are not function values of the geometry: {rec.bad_inputs[:3]}")
     ctx.note("user_calls", {"fwd": rec.fwd, "adj": rec.adj})
+
+def _run_funcview(case, ctx, cfg, rs):
+    """Selection operators written the way users write them: the callables return views of their argument."""
+    import cuqi
+    dspec, view = case["dom"], case["view"]
+    dshape = _fun_shape(dspec)
+    nd = int(np.prod(dshape))
+    rspec = dict(dspec)
+    if view == "identity":
+        idx = np.arange(nd); fwd = lambda x: x
+        def adj(y): return y
+    elif view == "reverse":
+        idx = np.arange(nd)[::-1]; fwd = lambda x: x[::-1]
+        def adj(y): return y[::-1]
+    elif view == "downsample":
+        idx = np.arange(nd)[::2]; fwd = lambda x: x[::2]
+        def adj(y):
+            z = np.zeros(nd); z[::2] = y
+            return z
+    elif view == "window":
+        a = 1 + int(rs.randint(0, 2)); b = nd - 1
+        idx = np.arange(nd)[a:b]; fwd = lambda x: x[a:b]
+        def adj(y):
+            z = np.zeros(nd); z[a:b] = y
+            return z
+    elif view == "image_identity":
+        idx = np.arange(nd); fwd = lambda X: X
+        def adj(Y): return Y
+    else:  # image_transpose
+        idx = np.arange(nd).reshape(dshape).T.reshape(-1); fwd = lambda X: X.T
+        def adj(Y): return Y.T
+        rspec["shape"] = [dshape[1], dshape[0]]
+    if len(dshape) == 1 and len(idx) != nd:
+        if dspec["g"] == "image_visual":
+            rspec["shape"] = [len(idx), 1]
+        else:
+            rspec["n"] = len(idx)
+    M = np.zeros((len(idx), nd)); M[np.arange(len(idx)), idx] = 1.0      # selection in C-flattened function space
+    kb, model = core.outcome(lambda: cuqi.model.LinearModel(fwd, adj, range_geometry=_build_geom(rspec), domain_geometry=_build_geom(dspec)))
+    if kb != "value":
+        ctx.refused("construct", model) if kb == "refused" else ctx.violation("crash", {**cfg, "op": "construct"}, detail=repr(model))
+        return
+    ctx.count("models_built")
+    r1 = examine(model, ctx, cfg, rs, label="view-returning callables", must_work=True, t_order=case["t_order"], nvec=2,
+                 expect_dims=(_par_dim(dspec), _par_dim(rspec)))
+    ref = L.param_matrix(M, dspec, rspec)
+    for nm, got, want in (("forward", r1["Af"], ref), ("adjoint", r1["Aa"], ref.T), ("get_matrix", r1["G"], ref)):
+        if got is not None:
+            ctx.count("forward_vs_user_operator_compared", want.shape[1])
+            if got.shape != want.shape or not ctx.close(got, want, rtol=RTOL, atol=1e-13):
+                ctx.violation("forward_geometry_mismatch" if nm != "get_matrix" else "matrix_mismatch", {**cfg, "what": "selection_" + nm},
+                              detail=f"{nm} of the selection operator '{view}' is not the selection matrix (nonzeros {int(np.count_nonzero(got))} vs {int(np.count_nonzero(want))})")
 
 # ----------------------------------------------------------------------------- test problems
 
